@@ -21,6 +21,9 @@ def check(run):
         raise vlib.Infra("harness saw %d mismatches that TextTrace did not reject" % st["bad"])
     # term / kind clause: what the library writes for every case value (JsonCodec.tla: WireOKWhy, WrittenNamesWhy)
     run.tlc_eval("JsonRTGen", "rt_gen", consts={"Gob": "FALSE", "Tier": '"%s"' % run.tier}, timeout=3000)
+    # the reply chains of 120 levels are a C01 matter; as tagged trees they exceed what TLC's Json module reads back (255 nested values)
+    cases = [c for c in vlib.read_ndjson(run.spec_path("rt_cases.ndjson")) if c["lab"]["fam"] != "deep"]
+    vlib.write_ndjson(run.spec_path("rt_cases.ndjson"), cases)
     run.vh(["c02-wire", run.spec_path("rt_cases.ndjson"), run.path("wire.ndjson")])
     from props import c05
     import shutil as _sh
